@@ -75,12 +75,12 @@ Proof.
     cbn [app] in Ht. rewrite Ht, Hw, Hk, Hws. vm_compute. reflexivity.
 Qed.
 
-Theorem undefined_identifier_error_line T name gd en :
-  und_ok T name = true -> env_from_map gd = EnvOk en -> env_get en name = None ->
-  evaluate_string cx0 (und_source T name) gd =
-    RenderErr (S (count_lf T)) (fmt ErrIdentifierNotFound [name]).
+Lemma und_source_parses T name :
+  und_ok T name = true ->
+  exists l1 h, parse_source (und_source T name) =
+    ParsedOk (mkProgram [SHtml l1 h; SExpr (EIdent (S (count_lf T)) name)] None [] [] []).
 Proof.
-  intros Hok He Hg.
+  intros Hok.
   pose proof (und_source_ok T name Hok) as Hs.
   pose proof (lex_spell (und_items T name) Hs) as L. rewrite und_source_spelled in L.
   set (src := und_source T name) in *.
@@ -129,9 +129,43 @@ Proof.
       rewrite forallb_forall in Hid. apply filter_none. intros x Hx.
       apply (idc_not x 10 (Hid x (removelast_in name x Hx))). reflexivity. }
     rewrite Hn0. cbn [List.length]. lia. }
-  unfold evaluate_string. rewrite PS. unfold render_program. rewrite He. cbn [p_stmts].
+  exists (eline t1), (tlit t1). rewrite PS, Hline. reflexivity.
+Qed.
+
+Lemma und_program_fails l1 h ln name en out0 :
+  env_get en name = None ->
+  eval_program cx0 eval_fuel en [SHtml l1 h; SExpr (EIdent ln name)] out0 = Fail ln (fmt ErrIdentifierNotFound [name]).
+Proof.
+  intro Hg.
   assert (HF : exists F, eval_fuel = S (S (S (S F)))) by (exists (Nat.pred (Nat.pred (Nat.pred (Nat.pred eval_fuel)))); reflexivity).
   destruct HF as [F ->]. cbn [eval_program eval_stmt]. cbv beta iota. cbn [fst snd].
-  unfold str_of. cbn [value_string]. cbv beta iota. cbn [eval_program eval_stmt eval_expr]. rewrite Hg. cbv beta iota.
-  rewrite Hline. reflexivity.
+  unfold str_of. cbn [value_string]. cbv beta iota. cbn [eval_program eval_stmt eval_expr]. rewrite Hg. reflexivity.
+Qed.
+
+Theorem undefined_identifier_error_line T name gd en :
+  und_ok T name = true -> env_from_map gd = EnvOk en -> env_get en name = None ->
+  evaluate_string cx0 (und_source T name) gd =
+    RenderErr (S (count_lf T)) (fmt ErrIdentifierNotFound [name]).
+Proof.
+  intros Hok He Hg. destruct (und_source_parses T name Hok) as (l1 & h & PS).
+  unfold evaluate_string. rewrite PS. unfold render_program. rewrite He. cbn [p_stmts].
+  rewrite (und_program_fails l1 h _ name en [] Hg). reflexivity.
+Qed.
+
+(* ---------- the same for a template FILE: the error also names the file *)
+From TW Require Import Api LineIrrelevance LayoutRefine.
+
+Theorem undefined_identifier_in_a_file fs cfg rel T name :
+  read_file fs rel = ReadOk (und_source T name) -> und_ok T name = true ->
+  exists ss, load_page fs cfg rel = Api.LOk (ss, false) /\
+    forall tpl nm gd en, alookup nm tpl = Some ss -> env_from_map gd = EnvOk en -> env_get en name = None ->
+      template_string cx0 cfg tpl nm gd =
+        StrErr (mkErr (S (count_lf T)) (template_path cfg nm) (fmt ErrIdentifierNotFound [name])).
+Proof.
+  intros Hr Hok. destruct (und_source_parses T name Hok) as (l1 & h & PS).
+  exists [SHtml l1 h; SExpr (EIdent (S (count_lf T)) name)]. split.
+  - unfold load_page, parse_file. rewrite Hr, PS. cbv beta iota. cbn [p_use p_components resolve_components p_stmts p_reserves].
+    cbv beta iota. cbn [map]. rewrite !rw_nothing by reflexivity. reflexivity.
+  - intros tpl nm gd en Ht He Hg. unfold template_string. rewrite He, Ht.
+    rewrite (und_program_fails l1 h _ name en [] Hg). reflexivity.
 Qed.
